@@ -104,4 +104,16 @@ theorem ecdh_comm (g : G) (a b : ZMod n) : a • pub g b = b • pub g a := by
 theorem ckd_commutes (g : G) (il k : ZMod n) : pub g (il + k) = il • g + pub g k := by
   unfold pub; rw [add_smul]
 
+/-- … and the two derivations FAIL together: the public sum is the identity exactly when the private sum is
+zero (for a base point that is not the identity). -/
+theorem ckd_fail_coincide (g : G) (hg : g ≠ 0) (il k : ZMod n) : il • g + pub g k = 0 ↔ il + k = 0 := by
+  unfold pub
+  rw [← add_smul]
+  constructor
+  · intro h
+    rcases smul_eq_zero.mp h with h | h
+    · exact h
+    · exact absurd h hg
+  · intro h; rw [h, zero_smul]
+
 end Sky.C10.ECDSA
